@@ -131,6 +131,9 @@ def run(ctx):
         k = rng.randrange(2, len(names) + 1)
         files = [(n, p, rng.choice(STATES) if rng.random() < 0.5 else "clean", rng.choice(spell.get(n, [n]))) for n, p in names[:k]]
         jobs.append((files, rng.random() < 0.5, 1000 + i, rng.choice(["clean", "clean", "clean", " M"])))
+    for s in (" M", "M ", "MM", "??"):                    # a long status listing: twelve unrelated dirty files sort before the dirty pattern file
+        for allow in (False, True):
+            jobs.append(([("a%02d.txt" % k, False, " M") for k in range(1, 13)] + [("zz_pat.txt", True, s)], allow, len(jobs), "clean"))
     for s in STATES:                                      # the project in a sub-directory of the repository, bumpver run from there: if it commits at all, the same rules hold
         for allow in (False, True):
             jobs.append(([("pat.txt", True, s), ("other.txt", False, "clean")], allow, len(jobs), "clean", True))
@@ -148,8 +151,8 @@ def run(ctx):
         if f["clause"] == "dirty:divergence-refused-although-clean-enough":
             ctx.divergence(f["clause"], e["dbg"])
             continue
-        pat_states = sorted(set(s for n, s in e["states"].items() if n in ("pat.txt", "src_p2.py", "series.txt", "rel notes \u00e9.md") and s != "clean"))
-        ctx.violation(dict(clause=f["clause"], allow=e["allow"], pattern_file_states=pat_states, leading_blank=any(s.startswith(" ") for s in pat_states), rename=("R " in pat_states or "RM" in pat_states), partial_pattern_file_dirty=e["states"].get("series.txt", "clean") != "clean", project_in_subdirectory=e["subdir"], quoted_name_dirty=e["states"].get("rel notes \u00e9.md", "clean") != "clean", respelled_key=bool(e["spelled"])),
+        pat_states = sorted(set(s for n, s in e["states"].items() if n in ("pat.txt", "src_p2.py", "series.txt", "rel notes \u00e9.md", "zz_pat.txt") and s != "clean"))
+        ctx.violation(dict(clause=f["clause"], allow=e["allow"], pattern_file_states=pat_states, leading_blank=any(s.startswith(" ") for s in pat_states), rename=("R " in pat_states or "RM" in pat_states), partial_pattern_file_dirty=e["states"].get("series.txt", "clean") != "clean", project_in_subdirectory=e["subdir"], quoted_name_dirty=e["states"].get("rel notes \u00e9.md", "clean") != "clean", long_listing=len(e["states"]) > 10, respelled_key=bool(e["spelled"])),
                       case=dict(what=e["dbg"], exc=e["exc"][:200]))
     ctx.count("repositories", len(events))
     ctx.count("blocked_runs", sum(1 for e in events if e["exit"] != 0))
